@@ -740,7 +740,7 @@ func (e *evaluator) evalQuery(ci, mode, qrank int, comps []string, links []Link)
 	}
 
 	for i, cs := range calls {
-		if mode > 0 && !cs.Rel {
+		if (mode > 0 && !cs.Rel) || !e.st.runs(i, cs) {
 			continue
 		}
 
